@@ -115,7 +115,7 @@ fn run_history(ctx: &Ctx, p: &Prog, hist: &[Act], st: &mut St) -> bool {
         let tensors: Vec<_> = inputs.iter().map(subject::to_tensor).collect();
         let mask = if a.owned { (1u32 << inputs.len()) - 1 } else { 0 };
         st.runs += 1;
-        let r = subject::run(&l, &tensors, &supplied, &outs, &RunCfg { owned_mask: mask, pool: None, order: None });
+        let r = subject::run(&l, &tensors, &supplied, &outs, &RunCfg { owned_mask: mask, pool: None, order: None, owned_noncontiguous: false });
         let ctxs = format!(
             "run #{} of the history ({} inputs{}, output set {})",
             step + 1,
@@ -167,7 +167,7 @@ fn run_history(ctx: &Ctx, p: &Prog, hist: &[Act], st: &mut St) -> bool {
     let inputs: Vec<NArr> = (0..p.n_inputs).map(|i| prog::input_fill(0, i)).collect();
     let tensors: Vec<_> = inputs.iter().map(subject::to_tensor).collect();
     let supplied: Vec<usize> = (0..p.n_inputs).collect();
-    if let RunOutcome::Ok(vals) = subject::run(&l, &tensors, &supplied, &consts, &RunCfg { owned_mask: 0, pool: None, order: None }) {
+    if let RunOutcome::Ok(vals) = subject::run(&l, &tensors, &supplied, &consts, &RunCfg { owned_mask: 0, pool: None, order: None, owned_noncontiguous: false }) {
         for (k, _) in consts.iter().enumerate() {
             if !vals[k].same(&prog::const_value(k)) {
                 ctx.violation("a constant (weight) was modified by a run", case(), format!("constant c{k} now {:?}", vals[k]));
@@ -419,10 +419,103 @@ fn poly_histories(ctx: &Ctx, only: Option<&Json>) -> (u64, u64) {
     (histories, runs)
 }
 
+
+// ---------------------------------------------------------------------------
+// Fifth sub-box: the same values at different memory addresses. The input of a
+// float single-operator model is a view that starts at every element offset 0..=17
+// of a larger buffer (and once an owned tensor); the values have mixed magnitudes, so a
+// summation order that depends on the alignment of the data changes low bits. Every run
+// must be bit-identical to the first one.
+
+fn alignment_runs(ctx: &Ctx, only: Option<&Json>) -> (u64, u64) {
+    use vp_onnx as onnx;
+    let mk = |node: onnx::Node, consts: Vec<onnx::Tensor>| -> Vec<u8> {
+        let mut g = onnx::Graph::new("align");
+        g.inputs.push(onnx::ValueInfo::typed_no_shape("A", onnx::dtype::FLOAT));
+        g.initializers = consts;
+        g.nodes.push(node.named("op"));
+        g.outputs.push(onnx::ValueInfo::untyped("Y"));
+        onnx::model_bytes(&g)
+    };
+    let w: Vec<f32> = (0..37 * 5).map(|i| ((i * 13 % 29) as f32 - 14.0) * 0.37).collect();
+    let models: Vec<(&str, Vec<u8>)> = vec![
+        ("ReduceSum(axes=[-1])", mk(onnx::Node::new("ReduceSum", &["A", "axes"], &["Y"]), vec![onnx::Tensor::i64("axes", &[1], &[-1])])),
+        ("ReduceSum(axes=[0])", mk(onnx::Node::new("ReduceSum", &["A", "axes"], &["Y"]), vec![onnx::Tensor::i64("axes", &[1], &[0])])),
+        ("ReduceMean(axes=[-1])", mk(onnx::Node::new("ReduceMean", &["A", "axes"], &["Y"]), vec![onnx::Tensor::i64("axes", &[1], &[-1])])),
+        ("ReduceL2(axes=[-1])", mk(onnx::Node::new("ReduceL2", &["A", "axes"], &["Y"]), vec![onnx::Tensor::i64("axes", &[1], &[-1])])),
+        ("Softmax(axis=-1)", mk(onnx::Node::new("Softmax", &["A"], &["Y"]).attr("axis", onnx::Attr::Int(-1)), vec![])),
+        ("LayerNormalization(axis=-1)", mk(onnx::Node::new("LayerNormalization", &["A", "scale"], &["Y"]).attr("axis", onnx::Attr::Int(-1)), vec![onnx::Tensor::f32("scale", &[37], &[1.5; 37])])),
+        ("MatMul(A, W[37,5])", mk(onnx::Node::new("MatMul", &["A", "W"], &["Y"]), vec![onnx::Tensor::f32("W", &[37, 5], &w)])),
+        ("Sigmoid", mk(onnx::Node::new("Sigmoid", &["A"], &["Y"]), vec![])),
+    ];
+    let (rows, cols) = (3usize, 37usize);
+    let n = rows * cols;
+    let vals: Vec<f32> = (0..n).map(|i| ((i * 37 % 101) as f32 - 50.0) * 1.0e-3 + if i % 7 == 0 { 1.0e4 } else if i % 5 == 0 { -3.3e2 } else { 0.0 }).collect();
+    let mut models_run = 0u64;
+    let mut runs = 0u64;
+    for (name, bytes) in models {
+        if let Some(o) = only {
+            if o["model"].as_str() != Some(name) {
+                continue;
+            }
+        }
+        let Ok(model) = subject::load_bytes(bytes, LoadCfg::default()) else {
+            ctx.observe(&format!("alignment sub-box: model {name} failed to load"));
+            continue;
+        };
+        models_run += 1;
+        let a_id = model.find_node("A").unwrap();
+        let y_id = model.find_node("Y").unwrap();
+        let bits = |v: Vec<rten::Value>| -> Option<Vec<u32>> {
+            let t: rten_tensor::Tensor<f32> = v.into_iter().next()?.try_into().ok()?;
+            Some(t.iter().map(|x| x.to_bits()).collect())
+        };
+        let mut first: Option<Vec<u32>> = None;
+        for offset in 0..=18usize {
+            runs += 1;
+            let got = if offset == 18 {
+                // owned tensor
+                let t = rten_tensor::Tensor::from_data(&[rows, cols], vals.clone());
+                vp_core::catch(|| model.run(vec![(a_id, rten::ValueOrView::Value(rten::Value::from(t)))], &[y_id], None)).ok().and_then(|r| r.ok()).and_then(&bits)
+            } else {
+                let mut buf = vec![0.0f32; offset + n];
+                buf[offset..].copy_from_slice(&vals);
+                let view = rten_tensor::TensorView::from_data(&[rows, cols], &buf[offset..]);
+                vp_core::catch(|| model.run(vec![(a_id, view.into())], &[y_id], None)).ok().and_then(|r| r.ok()).and_then(&bits)
+            };
+            let Some(got) = got else {
+                ctx.observe(&format!("alignment sub-box: run of {name} failed"));
+                break;
+            };
+            match &first {
+                None => first = Some(got),
+                Some(f) if *f != got => {
+                    let k = f.iter().zip(&got).position(|(a, b)| a != b).unwrap_or(0);
+                    ctx.violation(
+                        format!("the same input values at another memory address give different output bits [{name}]"),
+                        json!({"alignment": {"model": name, "offset_elements": offset}}),
+                        format!("{name}: input view at element offset {offset}{} differs from offset 0 at output element {k}: {:#010x} vs {:#010x}", if offset == 18 { " (owned tensor)" } else { "" }, got[k], f[k]),
+                    );
+                    break;
+                }
+                _ => {}
+            }
+        }
+    }
+    if only.is_none() && models_run < 6 {
+        ctx.machinery(&format!("C25 alignment sub-box vacuous: only {models_run} models ran"));
+    }
+    (models_run, runs)
+}
+
 pub fn run(ctx: Ctx) -> ! {
     let alphabet = acts();
     if let Some(path) = &ctx.replay {
         let case = vp_core::read_replay_case(path);
+        if !case["alignment"].is_null() {
+            let (h, r) = alignment_runs(&ctx, Some(&case["alignment"]));
+            ctx.finish("model_checking", json!({"states": h, "transitions": r, "traces_validated_against_impl": h, "samples": [case]}), vec![]);
+        }
         if !case["poly_history"].is_null() {
             let (h, r) = poly_histories(&ctx, Some(&case["poly_history"]));
             ctx.finish("model_checking", json!({"states": h, "transitions": r, "traces_validated_against_impl": h, "samples": [case]}), vec![]);
@@ -465,9 +558,10 @@ pub fn run(ctx: Ctx) -> ! {
     });
     let (ph, pr) = panic_histories(&ctx);
     let (qh, qr) = poly_histories(&ctx, None);
+    let (ah, ar) = alignment_runs(&ctx, None);
     let mut t = total.into_inner().unwrap();
-    t.histories += ph + qh;
-    t.runs += pr + qr;
+    t.histories += ph + qh + ah;
+    t.runs += pr + qr + ar;
     if t.runs < 10_000 {
         ctx.machinery("C25 vacuous");
     }
@@ -480,6 +574,7 @@ pub fn run(ctx: Ctx) -> ! {
         "programs": t.programs,
         "history_depth": depth,
         "alphabet_size": alphabet.len(),
+        "same_values_other_addresses": format!("{ah} float single-operator models (reductions, Softmax, LayerNormalization, MatMul, Sigmoid) x {ar} runs: the input is a view starting at every element offset 0..=17 of a larger buffer, and once an owned tensor; values of mixed magnitude; all outputs must be bit-identical"),
         "rank_varying_histories": format!("{qh} histories of depth <=3 over input ranks {{2,3,4}} on 10 rank-polymorphic single-operator models (Einsum with ellipsis, MatMul, Softmax, ReduceSum, Transpose, Flatten, Concat, LayerNormalization, Add): every run must return bit-for-bit what a freshly loaded model returns"),
         "panic_histories": format!("{ph} histories of depth <=3 over {{ok run, run that panics inside an operator}} x {{same thread, fresh thread}} on a graph built through the hook re-exports: a run after a panicking run must succeed with the right value (no poisoned or held lock)"),
         "supplied_intermediates_sub_box": "alphabet {no extra, each operator-output value supplied by the caller with contents = computed + 16} x {borrowed, owned} x {all values, last op output}, fill 0; every history of depth <=2 in which at least one run supplies an intermediate",
